@@ -52,6 +52,7 @@ MUTANTS = [
     # ---- C05
     ('C05', 'supp/scope.py', r"return self\.parent\.names\n\n    @context_property", "return self.flow.names\n\n    @context_property", 'C05-R3'),
     ('C05', 'supp/scope.py', r"outer_names = set\(snames\)\.difference\(self\.scope\.locals\)", "outer_names = set(snames)", 'C05-R2'),
+    ('C05', 'supp/scope.py', r"if self\.scope\.globals and pscope is not self\.scope\.top:", "if False:", 'C05-R3'),
     ('C05', 'supp/nast.py', r"        self\.visit_in_flow\(node\.bases, cur\)\n(.*?)\n        scope = ClassScope\(cur\.scope, node, top=self\.top\)\n        cur\.add_name\(scope\)([^\n]*)", r"\1\n        scope = ClassScope(cur.scope, node, top=self.top)\n        cur.add_name(scope)\n        self.visit_in_flow(node.bases, scope.flow)", 'C05-R1'),
     ('C05', 'supp/scope.py', r"        if name\.name in self\.scope\.globals:\n            self\.scope\.top\.add_global\(name\)\n        else:\n            self\.scope\.locals\.add\(name\.name\)\n            insert_loc", "        if False:\n            self.scope.top.add_global(name)\n        else:\n            self.scope.locals.add(name.name)\n            insert_loc", 'C05-R'),
     ('C05', 'supp/scope.py', r"                if isinstance\(self\.scope, ClassScope\):\n                    return MergedDict\(snames\)\n                else:", "                if False:\n                    return MergedDict(snames)\n                else:", 'C05-R2'),
